@@ -251,6 +251,19 @@ def main():
                 res.fail(f"anisotropic voigt-vs-mandel dim={dim}", f"same material entered in Voigt and Kelvin-Mandel notation gives laws differing by {np.abs(Am.C - Av.C).max():.3e}", dict(dim=dim))
             if np.abs(Am.C @ Am.S - np.eye(n)).max() > 1e-8:
                 res.fail(f"anisotropic C.S=I dim={dim}", "C S != I", dict(dim=dim))
+            # a table of moduli typed in as whole numbers (integer dtype) is the same material as the same table in floats
+            vint = np.diag([40, 30, 20, 6, 5, 4][:n] if dim == 3 else [40, 30, 6]).astype(np.int64)
+            vint[0, 1] = vint[1, 0] = 7
+            vint[0, n - 1] = vint[n - 1, 0] = 3
+            try:
+                Ai = E_.Anisotropic(dim, vint, True, a1, a2)
+                Af = E_.Anisotropic(dim, vint.astype(float), True, a1, a2)
+                res.case((rep, "aniso-int", dim))
+                if np.abs(np.asarray(Ai.C, float) - Af.C).max() > 1e-9 * np.abs(Af.C).max():
+                    res.fail(f"anisotropic integer Voigt input dim={dim}", f"the Voigt matrix given with an integer dtype gives a law differing by {np.abs(np.asarray(Ai.C, float) - Af.C).max():.3e} from the same matrix in floats",
+                             dict(dim=dim, voigt=vint.tolist()))
+            except Exception as ex:  # noqa: BLE001
+                res.fail(f"anisotropic integer Voigt input raises dim={dim}", f"{type(ex).__name__}: {str(ex)[:120]}", dict(dim=dim, voigt=vint.tolist()))
         # heterogeneous parameter fields, per element (Ne,) and per Gauss point (Ne, nPg), with rotated material axes:
         # every entry of the field law is the scalar law of that entry's parameters
         for kind in ("iso", "ti", "ortho"):
